@@ -58,6 +58,18 @@ def ob_step(a: int, b: int, c: int, hold: int) -> bool:
                    old_closing=P.get('old_closing', False), pending_attempt=P.get('pending_attempt', False),
                    old_closed=P.get('old_closed', False))
     mark = w.mark()
+    if ev.startswith('late_old:'):
+        # bytes of the peer that were in flight on the previous connection (which the agent is closing) arrive now, while
+        # the application has an UPDATE queued for the peer: nothing may be written to that old connection
+        w.handler.inter_mq.put({'type': 'update', 'msg': {'attr': {1: 0, 2: [], 3: '10.0.0.1'}, 'nlri': ['10.9.0.0/16']}})
+        data = {'keepalive': S.KEEPALIVE, 'update': S.rfc_update_min(), 'unknown-type': S.MARKER + bytes([0, 19, 99])}[ev[9:]]
+        w.old_connector.protocol.dataReceived(data)
+        obs = SC.observe(w, mark)
+        cover('stepped')
+        for (t, _time, _data) in obs['wire']:
+            if t is w.old_connector.transport:
+                return False
+        return accounting_ok(w, obs)
     if ev == 'close_done_old':
         w.old_connector.world_connection_lost()
     else:
@@ -123,6 +135,10 @@ def obligations(tier, seed):
         for ev in evs:
             out.append(ob('C12/step-old-closing/%s/%s' % (S.STATE_NAMES[state], ev), 'ob_step',
                           {'state': state, 'ev': ev, 'old_closing': True}, covers=['stepped'], cap=120))
+    for state in (S.CONNECT, S.OPENSENT, S.ESTABLISHED):
+        for kind in ('keepalive', 'update', 'unknown-type'):
+            out.append(ob('C12/step-old-closing/%s/late-data-on-old-connection/%s' % (S.STATE_NAMES[state], kind), 'ob_step',
+                          {'state': state, 'ev': 'late_old:' + kind, 'old_closing': True}, covers=['stepped'], cap=120))
     # an earlier connection that is completely over is still referenced by the FSM
     for state in (S.IDLE, S.CONNECT):
         for ev in SC.EVENTS_BY_STATE[state]:
